@@ -199,6 +199,44 @@ func runC15(c *Ctx) {
 		}
 		c.Check(!bad && same && len(f.Locs(loose)) > 0 && len(f.Locs(packed)) > 0, r3, fi.Name(), fi.Decl.Pos(), "loose refs are collected first and packed refs are filtered through the same `seen` set")
 	}
+	// peel-line-goes-with-its-ref: the rewrite that drops one reference from packed-refs copies lines; a line starting with
+	// '^' is the peeled value of the line before it, so the rewrite has a branch that tests for '^' and skips the line
+	// (otherwise git reads the orphan as the peeled value of the preceding reference)
+	if rw := c.MustFunc("packed-line-shape", dotgitShort+".(*DotGit).rewritePackedRefsWithoutRef"); rw != nil {
+		c.Analysed(rw)
+		skipsPeel := false
+		ast.Inspect(rw.Decl.Body, func(n ast.Node) bool {
+			ifs, ok := n.(*ast.IfStmt)
+			if !ok {
+				return true
+			}
+			caret := false
+			ast.Inspect(ifs.Cond, func(m ast.Node) bool {
+				if e, ok := m.(ast.Expr); ok {
+					if tv := info.Types[e]; tv.Value != nil {
+						if tv.Value.Kind() == constant.String && constant.StringVal(tv.Value) == "^" {
+							caret = true
+						}
+						if tv.Value.Kind() == constant.Int && tv.Value.ExactString() == "94" {
+							caret = true
+						}
+					}
+				}
+				return true
+			})
+			if !caret {
+				return true
+			}
+			for _, s := range ifs.Body.List {
+				if b, ok := s.(*ast.BranchStmt); ok && b.Tok == token.CONTINUE {
+					skipsPeel = true
+				}
+			}
+			return true
+		})
+		c.Check(skipsPeel, "packed-line-shape", rw.Name()+":peel-line-goes-with-its-ref", rw.Decl.Pos(), orStr(ifStr(!skipsPeel, "the rewrite copies '^' lines unconditionally: the peeled line of a removed annotated tag stays and git attributes it to the preceding reference"),
+			"a '^' line is skipped together with the reference line it belongs to"))
+	}
 	// a loose name shadows the packed value only when its loose file was read successfully: in the loose walk every
 	// `seen[...] = true` lies behind the success edge of the call that reads the loose file (an empty, vanished or
 	// unreadable loose file must leave the packed value visible)
